@@ -42,6 +42,9 @@ func Generate(seed uint64, profile string) *Project {
 	p.ExpTopEnum = r.Chance(1, 2)
 	p.ExpEnumVal = r.Chance(1, 2)
 	nSchemes := r.Range(1, 3)
+	if profile == "order" {
+		nSchemes = r.Range(2, 4)
+	}
 	for i := 0; i < nSchemes; i++ {
 		p.Schemes = append(p.Schemes, fmt.Sprintf("sec%d", i+1))
 	}
@@ -154,6 +157,43 @@ func Generate(seed uint64, profile string) *Project {
 		for m := 0; m < nM; m++ {
 			c.Methods = append(c.Methods, g.method(&c, m, Pick(r, files)))
 		}
+		if profile == "router" && r.Chance(1, 3) && total+len(c.Methods) < maxRoutes {
+			// a literal sibling of a parameter route (same verb): /items/{id} + /items/featured
+			for mi := range c.Methods {
+				m := c.Methods[mi]
+				segs := Segments(NormPath("", m.Route))
+				if len(segs) == 0 || !IsParamSeg(segs[len(segs)-1]) || strings.HasSuffix(m.Route, "/") {
+					continue
+				}
+				sib := Method{Name: "Featured" + strings.TrimPrefix(c.Name, "Ctl") + fmt.Sprint(mi), File: m.File, Verb: m.Verb, Ret: "error"}
+				idx := strings.LastIndex(m.Route, "{")
+				sib.Route = m.Route[:idx] + "featured"
+				last := strings.Trim(segs[len(segs)-1], "{}")
+				for _, prm := range m.Params {
+					if prm.Loc == "path" && prm.WireName() != last {
+						sib.Params = append(sib.Params, prm) // the other path parameters are still bound
+					}
+				}
+				if r.Chance(1, 2) {
+					// a string parameter accepts the literal's text, so a router that hands the literal path
+					// to the parameter route invokes the WRONG method instead of failing to convert
+					for pi := range c.Methods[mi].Params {
+						if c.Methods[mi].Params[pi].Loc == "path" && c.Methods[mi].Params[pi].WireName() == last {
+							c.Methods[mi].Params[pi].Type = TypeRef{Kind: "prim", Prim: "string"}
+							c.Methods[mi].Params[pi].Validate = ""
+						}
+					}
+				}
+				if r.Chance(1, 2) {
+					// declared (hence registered) BEFORE the parameter route ...
+					c.Methods = append(c.Methods[:mi], append([]Method{sib}, c.Methods[mi:]...)...)
+				} else {
+					// ... or after it
+					c.Methods = append(c.Methods, sib)
+				}
+				break
+			}
+		}
 		total += len(c.Methods)
 		p.Controllers = append(p.Controllers, c)
 	}
@@ -211,7 +251,11 @@ func (g *genState) typeFile(pkg string) string {
 	if strings.HasPrefix(pkg, "mdl") {
 		return fmt.Sprintf("types_%d.go", g.r.Range(0, 1))
 	}
-	if g.r.Chance(1, 2) {
+	switch g.r.Intn(6) {
+	case 0, 1:
+		// the file that declares the package's first controller (controller i lives in ctl<i> and is declared in ctl<i>_f0.go)
+		return pkg + "_f0.go"
+	case 2, 3:
 		return "types.go"
 	}
 	return fmt.Sprintf("shared_%d.go", g.r.Range(1, 2))
@@ -240,6 +284,10 @@ func (g *genState) newEnum() TypeRef {
 		pool := []string{"1", "2", "3", "5", "8", "13"}
 		Shuffle(g.r, pool)
 		e.Values = append(e.Values, pool[:g.r.Range(2, 4)]...)
+	}
+	if g.profile == "order" && g.r.Chance(1, 2) {
+		// constants of one enum spread over two files of the package (file names chosen to sort on both sides)
+		e.SplitFile = Pick(g.r, []string{"aa_consts.go", "zz_consts.go"})
 	}
 	g.p.Enums = append(g.p.Enums, e)
 	return TypeRef{Kind: "enum", Prim: e.Prim, Pkg: e.Pkg, Name: e.Name}
@@ -650,6 +698,7 @@ func (g *genState) method(c *Controller, idx int, file string) Method {
 // controlled share of overlapping routes (they only produce warnings).
 func (g *genState) fixOverlaps() {
 	keep := g.profile == "order" && g.r.Chance(1, 4)
+	keepSpecific := g.profile == "router" // literal route shadowing a parameter route: the common /items/featured + /items/{id} shape
 	for iter := 0; iter < 50; iter++ {
 		rts := g.p.Routes()
 		changed := false
@@ -660,6 +709,9 @@ func (g *genState) fixOverlaps() {
 				if sameShapeOtherNames || (rts[i].M.Verb == rts[j].M.Verb && Overlap(rts[i].Segs, rts[j].Segs)) {
 					if keep && !sameShapeOtherNames && eraseNames(rts[i].Segs) != eraseNames(rts[j].Segs) {
 						continue // literal-vs-parameter overlap: accepted by gleece with a warning
+					}
+					if keepSpecific && !sameShapeOtherNames && (MoreSpecific(rts[i].Segs, rts[j].Segs) || MoreSpecific(rts[j].Segs, rts[i].Segs)) {
+						continue // one template is the other with parameters replaced by literals: dispatch is unambiguous
 					}
 					m := rts[i].M
 					m.Route = strings.TrimRight(m.Route, "/") + fmt.Sprintf("/u%d", iter)
